@@ -52,7 +52,12 @@ def expm_dia(matrix: Dia) -> Dia:
         )
     elif isdiag_dia(matrix):
         matrix_sci = matrix.as_scipy()
-        data = np.exp(matrix_sci.data[0, :])
+        if matrix_sci.offsets[0] == 0:
+            data = np.exp(matrix_sci.data[0, :])
+        else:
+            # The only stored diagonal is an all-zero off-diagonal: its data
+            # (including what lies outside of the matrix) is not the diagonal.
+            data = np.ones(matrix.shape[0], dtype=complex)
         out = dia.diags(data, shape=matrix.shape)
     else:
         mat = matrix.as_scipy()
